@@ -193,6 +193,19 @@ def F22():
     assert out[0] == out[1], out  # compiled reader raised EOFError
 
 
+def F23():
+    import io
+
+    for comp in (True, False):
+        cs = cstruct()
+        cs.load("struct e { };\nstruct t { uint32 a; e x; uint32 b; };", align=True, compiled=comp)
+        fh = io.BytesIO(bytes(range(1, 30)))
+        fh.seek(8)
+        cs.e(fh)
+        assert fh.tell() == 8, (comp, fh.tell())  # the stream was moved back to 0
+        assert cs.t(bytes(range(1, 13))).b == 0x08070605, (comp, cs.t(bytes(range(1, 13))))
+
+
 ALL = {k: v for k, v in globals().items() if k.startswith("F") and callable(v)}
 
 if __name__ == "__main__":
